@@ -190,6 +190,8 @@ def run_brew(case, workdir=None, keep=False):
                   test_fdr=thr[0] / thr[1])
         if case.get("cap") is not None:
             kw["subset_max_train"] = int(case["cap"])
+        if case.get("ensemble"):
+            kw["ensemble"] = True
         # interposition at the LinearPsmDataset boundary: what brew hands to the training-set constructor
         # (enforce_checks=True) is recorded even when that constructor rejects it (no targets / no decoys)
         import sys
